@@ -50,6 +50,16 @@ def run(rep, tier, seed):
             chk.generate('gen3runs', gen_consts(1, MaxPSteps=2, InOpts=IN_OPTS[:1], InCalls=[('ia1', 1), ('ia1', 2)],
                                                 Toggles=0, StartEnabled=[True], Ctl=[], PlayFaults=[]),
                          cassettes=('memory',), n_conc=1, sample=3000, cap=5000)
+            # two recordings: a failing replay of one must not influence the replay of the other
+            chk.generate('tworecs', gen_consts(1, MaxPSteps=1, MaxRuns=4, MaxRecs=2, InCalls=[('ia1', 1), ('ia1', 2)],
+                                               InOpts=[opts(), opts(runOrig=True), opts(subst='falsy')], OutAliases=[],
+                                               Toggles=0, StartEnabled=[True], Ctl=[], PlayFaults=[]),
+                         cassettes=('memory',), n_conc=1, sample=3000, cap=5000)
+            # a recording that holds the main alias *and* a fallback alias for the same arguments: the main alias wins
+            chk.generate('bothkeys', gen_consts(2, MaxPSteps=1, MaxRuns=2, InCalls=[('ia1', 1), ('ia5', 1)], OutAliases=[],
+                                                InOpts=[opts(), opts(fb=('ia1',)), opts(fb=('iaX', 'ia1'), subst='value')],
+                                                Toggles=0, StartEnabled=[True], Ctl=[], PlayFaults=[]),
+                         cassettes=('memory', 'file'), n_conc=1, sample=2000, cap=3000)
             chk.generate('genv', gen_consts(1, InOpts=IN_OPTS_NOFB, InCalls=[('ia2', 1), ('ia3', 0), ('ia4', 2)],
                                             OutAliases=['oa2'], MaxRuns=2, Toggles=0, StartEnabled=[True], Ctl=[]),
                          cassettes=('memory',), n_conc=2, sample=1500, cap=2500)
@@ -57,6 +67,16 @@ def run(rep, tier, seed):
             chk.check('chk', gen_consts(3, MaxRuns=2, Toggles=0, StartEnabled=[True]), invariants=INVS, timeout=3000)
             chk.generate('gen1', gen_consts(1, MaxRuns=2, Toggles=0, StartEnabled=[True]),
                          cassettes=('memory', 'file', 's3'), n_conc=4, all_paths=True, cap=150000)
+            # two recordings: a failing replay of one must not influence the replay of the other
+            chk.generate('tworecs', gen_consts(1, MaxPSteps=1, MaxRuns=4, MaxRecs=2, InCalls=[('ia1', 1), ('ia1', 2)],
+                                               InOpts=[opts(), opts(runOrig=True), opts(subst='falsy')], OutAliases=[],
+                                               Toggles=0, StartEnabled=[True], Ctl=[], PlayFaults=[]),
+                         cassettes=('memory',), n_conc=1, sample=3000, cap=5000)
+            # a recording that holds the main alias *and* a fallback alias for the same arguments: the main alias wins
+            chk.generate('bothkeys', gen_consts(2, MaxPSteps=1, MaxRuns=2, InCalls=[('ia1', 1), ('ia5', 1)], OutAliases=[],
+                                                InOpts=[opts(), opts(fb=('ia1',)), opts(fb=('iaX', 'ia1'), subst='value')],
+                                                Toggles=0, StartEnabled=[True], Ctl=[], PlayFaults=[]),
+                         cassettes=('memory', 'file'), n_conc=1, sample=2000, cap=3000)
             chk.generate('genv', gen_consts(2, InOpts=IN_OPTS_NOFB, InCalls=[('ia2', 1), ('ia3', 0), ('ia4', 2)],
                                             OutAliases=['oa2'], MaxRuns=2, Toggles=0, StartEnabled=[True], Ctl=[]),
                          cassettes=('memory', 'file'), n_conc=2, sample=40000, cap=60000, max_states=600000)
